@@ -45,6 +45,8 @@ COPY_FUNCS = {"copy.deepcopy", "deepcopy", "copy.copy", "list", "dict", "set", "
 COPY_METHODS = {"copy", "union", "difference", "intersection", "symmetric_difference", "items", "keys", "values",
                 "to_directed", "subgraph_copy", "number_of_edges", "number_of_nodes", "in_degree", "out_degree",
                 "successors", "predecessors", "has_edge", "has_node", "join", "format", "split", "issubset"}
+# shallow copies: a new container that shares its elements with the argument
+SHALLOW_FUNCS = {"dict", "list", "copy.copy", "tuple", "sorted", "reversed"}
 # accessors returning a reference *into* the receiver
 VIEW_METHODS = {"get", "setdefault", "nodes", "edges", "__getitem__"}
 
@@ -128,8 +130,11 @@ class AliasFlow(Flow):
                 return frozenset([f"A:{e.attr}"])
             # attribute of a tagged object is reachable from it
             return frozenset(t for t in self.tags(e.value, env) if t != FRESH)
+        if isinstance(e, ast.Subscript) and isinstance(e.slice, ast.Constant) and dotted(e.value) and f"{dotted(e.value)}[{e.slice.value!r}]" in env.d:
+            return env.d[f"{dotted(e.value)}[{e.slice.value!r}]"]
         if isinstance(e, ast.Subscript):
-            return frozenset(t for t in self.tags(e.value, env) if t != FRESH)
+            # an element of a *shallow copy* (tag S:<t>) is the very element of the copied object
+            return frozenset((t[2:] if t.startswith("S:") else t) for t in self.tags(e.value, env) if t != FRESH)
         if isinstance(e, ast.IfExp):
             return self.tags(e.body, env) | self.tags(e.orelse, env)
         if isinstance(e, ast.BoolOp):
@@ -147,6 +152,10 @@ class AliasFlow(Flow):
             return frozenset([FRESH])
         if isinstance(e, ast.Call):
             fn = dotted(e.func) or ""
+            if fn in SHALLOW_FUNCS and len(e.args) == 1 and not e.keywords:
+                # new outer container, shared contents
+                inner = self.tags(e.args[0], env) or frozenset()
+                return frozenset([FRESH]) | frozenset(f"S:{t}" for t in inner if t != FRESH and not t.startswith("S:"))
             if fn in COPY_FUNCS:
                 return frozenset([FRESH])
             if isinstance(e.func, ast.Attribute):
@@ -157,6 +166,9 @@ class AliasFlow(Flow):
                     if m in ("get", "setdefault") and len(e.args) > 1:
                         extra = self.tags(e.args[1], env)
                     return frozenset(t for t in base if t != FRESH) | extra | (frozenset([FRESH]) if not base else frozenset())
+                if m == "copy" and not e.args:
+                    inner = self.tags(e.func.value, env) or frozenset()
+                    return frozenset([FRESH]) | frozenset(f"S:{t}" for t in inner if t != FRESH and not t.startswith("S:"))
                 if m in COPY_METHODS:
                     return frozenset([FRESH])
             tgt = self._resolve(e)
@@ -180,6 +192,8 @@ class AliasFlow(Flow):
 
     def _mutation(self, tags: FrozenSet[str], node, kind):
         for t in tags:
+            if t.startswith("S:"):
+                continue        # the shallow copy itself is a new object; only its (shared) elements can leak a mutation
             if t.startswith("P:"):
                 self.sum.mutates.setdefault(t[2:], []).append(self._site(node, kind))
             elif t.startswith("A:"):
@@ -234,6 +248,9 @@ class AliasFlow(Flow):
         if isinstance(t, ast.Subscript):
             base = self.tags(t.value, env)
             self._mutation(frozenset(x for x in base if x != FRESH), node, "item store")
+            # flow-sensitive view of an item with a constant key: X['k'] = v makes later reads of X['k'] denote v
+            if isinstance(t.slice, ast.Constant) and dotted(t.value):
+                return env.set(f"{dotted(t.value)}[{t.slice.value!r}]", val_tags)
             return env
         return env
 
